@@ -106,6 +106,26 @@ func nsReadN(nt *nsNet, c io.Reader, n int) ([]byte, error, bool) {
 	})
 }
 
+// nsReadChunks reads exactly n bytes from c using a consumer buffer of k bytes per Read call.
+func nsReadChunks(nt *nsNet, c io.Reader, n, k int) ([]byte, error, bool) {
+	return nsCall(nt, func() ([]byte, error) {
+		out := make([]byte, 0, n)
+		buf := make([]byte, k)
+		for len(out) < n {
+			want := k
+			if n-len(out) < want {
+				want = n - len(out)
+			}
+			m, err := c.Read(buf[:want])
+			out = append(out, buf[:m]...)
+			if err != nil {
+				return out, err
+			}
+		}
+		return out, nil
+	})
+}
+
 // nsFrameStats inspects every frame written so far: the largest payload, and the frames of a type.
 func (n *nsNet) maxPayload() (int, string) {
 	max := 0
